@@ -807,6 +807,7 @@ Examples:
         def func(x, *args, **kwds):
             if isinstance(x, ndarray): xtype = asarray
             else: xtype = type(x)
+            if hasattr(x, '__len__') and not len(x): return f(x, *args, **kwds)
             arglo, arghi = argnear(x)
             xp = near(x, samples[0][arglo], samples[0][arghi])
             # create a choice array from given indices
